@@ -15,7 +15,8 @@ from . import c02, c08
 PROPERTY = "C16"
 RULE = (
     "cases are generated paths of 1..4 subpaths (open, closed with zero and non-zero closes, single-segment, "
-    "move-only, all segment kinds) with a history of 1..6 operations drawn from: reverse the whole path, reverse "
+    "move-only, all segment kinds, and subpaths retracing a few vertices so that value-equal and mutually reversed "
+    "segments occur at arbitrary, also mirrored, positions) with a history of 1..6 operations drawn from: reverse the whole path, reverse "
     "subpath i, multiply by a similarity/reflection and reify; the library path is compared with the model after "
     "every step. Non-trivial = >= 2 subpaths or a closed subpath with a non-zero close, containing a curve; distinct "
     "by the case."
@@ -29,15 +30,59 @@ ASSUMPTIONS = [
     "Move.start is informational and ignored",
 ]
 TOLERANCES = {"point": "1e-9 * S"}
-MANDATORY_LABELS = {"quick": ["op:rev", "op:revsub", "op:mul", "shape:closed-nonzero", "shape:closed-zero", "shape:open", "shape:multi", "history:double-reverse"]}
+MANDATORY_LABELS = {"quick": ["op:rev", "op:revsub", "op:mul", "shape:closed-nonzero", "shape:closed-zero", "shape:open", "shape:multi", "shape:repeated-segment", "history:double-reverse"]}
 MANDATORY_LABELS["thorough"] = MANDATORY_LABELS["quick"]
 
 TS = [0.0, 0.2, 0.5, 0.8, 1.0]
 ISO = ["similarity", "reflection", "translate", "antidiagonal"]
 
 
+def retraced(d):
+    """a subpath that walks back and forth over a few vertices, so that value-equal segments (the same edge drawn
+    again in the same direction) and mutually reversed ones occur at arbitrary positions, mirrored ones included"""
+    nv = d.int(2, 4)
+    verts = []
+    for i in range(nv):
+        p = gen.point(d, gen.small_coord)
+        if p in verts:  # (an exhausted data provider repeats itself: make the vertex distinct by construction)
+            p = [p[0] + float(i), p[1] + 1.0]
+        verts.append(p)
+    kinds = {}
+
+    def edge(i, j):
+        a, b = verts[i], verts[j]
+        if (i, j) not in kinds:
+            kinds[(i, j)] = d.choice(["L", "L", "Q", "C", "A"])
+        k = kinds[(i, j)]
+        dx, dy = b[0] - a[0], b[1] - a[1]
+        mx, my = (a[0] + b[0]) / 2.0, (a[1] + b[1]) / 2.0
+        if k == "L":
+            return ["L", list(a), list(b)]
+        if k == "Q":
+            return ["Q", list(a), [mx - dy / 4.0, my + dx / 4.0], list(b)]
+        if k == "C":
+            return ["C", list(a), [a[0] - dy / 4.0, a[1] + dx / 4.0], [b[0] - dy / 4.0, b[1] + dx / 4.0], list(b)]
+        r = max(abs(dx), abs(dy), 1e-3)
+        return ["A", list(a), r, r * 0.75, 30.0, 0, 1, list(b)]
+
+    at = d.below(nv)
+    out = [["M", list(verts[at])]]
+    for _ in range(d.int(2, 6)):
+        nxt = d.below(nv - 1)
+        if nxt >= at:
+            nxt += 1
+        out.append(edge(at, nxt))
+        at = nxt
+    if d.bool():
+        out.append(["Z"])
+    return out
+
+
 def decode(d, move_led=True):
     segs = gen.path_segments(d, max_subpaths=4, max_segs=3, c=gen.small_coord, move_led=move_led)
+    if move_led and d.chance(1, 4):
+        r = retraced(d)
+        segs = r if d.bool() else (r + gen.path_segments(d, max_subpaths=2, max_segs=3, c=gen.small_coord, move_led=True) if d.bool() else gen.path_segments(d, max_subpaths=2, max_segs=3, c=gen.small_coord, move_led=True) + r)
     if not move_led and d.chance(1, 4) and segs and segs[-1][0] == "Z":
         segs.append(["Z"])
     ops = []
@@ -195,6 +240,9 @@ def check(case):
         o.label("shape:%s" % sh)
     if no_move:
         o.label("class:no-own-move")
+    drawn = [tuple(map(repr, g)) for g in case["segs"] if g[0] not in ("M", "Z")]
+    if len(set(drawn)) < len(drawn):
+        o.label("shape:repeated-segment")
     ops = case["ops"]
     if len(ops) == 2 and ops[0] == ops[1] and ops[0][0] in ("rev", "revsub"):
         o.label("history:double-reverse")
